@@ -262,6 +262,8 @@ def r17_4(run):
     cc = create_calls(li)
     cdn = names_defined_by(li, lambda v: isinstance(v, ast.Call) and dotted(v.func) in CREATORS)
     waitn = [n for n in g.real_nodes() if n.kind == 'stmt' and any(isinstance(a, ast.Yield) and dotted(a.value) in cdn for a in node_asts(n))]
+    if not cdn:
+        raise Undecided('listen: no call of a known service constructor (%s) is bound to a name here - the creation may be spelled through a variable class' % ', '.join(sorted(CREATORS))[:160])
     for rn in rets:
         v = rn.ast.value
         ok = isinstance(v, ast.Call) and dotted(v.func) == 'TorOnionListeningPort' and [dotted(a) for a in v.args] == [
